@@ -141,6 +141,7 @@ type c42Env struct {
 	connOK   [c42NS]bool
 	slow     int
 	cur      [c42NS]*c42Stream
+	failNext [c42NS]*c42Stream // the next Send on this stream fails and breaks it
 	nstream  [c42NS]int
 	held     []func()
 	sentTot  map[[2]int]int
@@ -240,6 +241,14 @@ func (s *c42Stream) Send(b []byte) error {
 	defer e.mu.Unlock()
 	if s.broken || s.ctx.Err() != nil {
 		return errors.New("c42: send on a finished stream")
+	}
+	if e.failNext[s.srv] == s {
+		// scripted fault: the stream breaks while this request is being
+		// written; the request is lost and the reader gets the error next
+		e.failNext[s.srv] = nil
+		s.broken = true
+		s.in <- c42Wire{err: errors.New("c42: scripted stream failure during send")}
+		return errors.New("c42: scripted send failure")
 	}
 	var req v3discoverypb.DiscoveryRequest
 	if err := proto.Unmarshal(b, &req); err != nil {
@@ -425,6 +434,10 @@ func (s *c42Sut) apply(ev c42Ev, step int) {
 	case 'C':
 		e.mu.Lock()
 		e.connOK[ev.S] = !e.connOK[ev.S]
+		e.mu.Unlock()
+	case 'F':
+		e.mu.Lock()
+		e.failNext[ev.S] = e.cur[ev.S]
 		e.mu.Unlock()
 	case 'A':
 		time.Sleep(s.sc.Dt)
